@@ -4,6 +4,7 @@ package main
 
 import (
 	"encoding/json"
+	"fmt"
 	"io"
 	"math"
 	"math/big"
@@ -270,8 +271,39 @@ func specialReplay(in io.Reader, raw bool, args []string) (*Summary, error) {
 			}
 		}
 	})
+	specialConcurrent(sum)
 	sum.note("worst_abs_or_rel_error", worst)
 	return sum, err
+}
+
+// specialConcurrent: the special functions evaluated by many goroutines at once, every goroutine with other parameters.
+func specialConcurrent(sum *Summary) {
+	var names []string
+	var calls []func() float64
+	add := func(name string, f func() float64) { names, calls = append(names, name), append(calls, f) }
+	shapes := []float64{0.5, 0.75, 1, 1.5, 2, 2.5, 3, 4.25, 7, 8, 16, 33.5, 100}
+	for _, a := range shapes {
+		for _, b := range shapes {
+			a, b := a, b
+			add(fmt.Sprintf("Beta(%v,%v)", a, b), func() float64 { return mathx.Beta(a, b) })
+			for _, x := range []float64{0.05, 0.3, 0.5, 0.8, 0.97} {
+				x := x
+				add(fmt.Sprintf("BetaInc(%v,%v,%v)", x, a, b), func() float64 { return mathx.BetaInc(x, a, b) })
+			}
+		}
+		for _, x := range []float64{0.1, 0.9, 2, 5.5, 20, 120} {
+			a, x := a, x
+			add(fmt.Sprintf("GammaInc(%v,%v)", a, x), func() float64 { return mathx.GammaInc(a, x) })
+			add(fmt.Sprintf("GammaIncComp(%v,%v)", a, x), func() float64 { return mathx.GammaIncComp(a, x) })
+		}
+	}
+	for n := 3; n <= 180; n += 7 {
+		for _, k := range []int{1, n / 3, n / 2} {
+			n, k := n, k
+			add(fmt.Sprintf("Choose(%d,%d)", n, k), func() float64 { return mathx.Choose(n, k) })
+		}
+	}
+	concurrentSame(sum, "mathx special functions", names, calls)
 }
 
 func itoa(n int) string {
